@@ -251,6 +251,23 @@ Example c15_ex_caller :
                               (asc "x-ch", PStr (asc "c"))] = Err EValue.
 Proof. exact ex_caller. Qed.
 
+(* the three forms of in_choices: either / a single member only / a list of members only *)
+Example c15_ex_choice_forms :
+  let extra := [hp "c-any" (VChoices ["a"; "b"]%string) false; hp "c-one" (VChoiceStr ["a"; "b"]%string) false;
+                hp "c-list" (VChoiceList ["a"; "b"]%string) false] in
+  let reg := mk_registry jws_default_header_registry extra in
+  let h v := [(asc "alg", PStr (asc "HS256")); v] in
+  jws_check_header reg true (h (asc "c-any", PStr (asc "a"))) = Ok tt /\
+  jws_check_header reg true (h (asc "c-any", PList [PStr (asc "a"); PStr (asc "b")])) = Ok tt /\
+  jws_check_header reg true (h (asc "c-one", PStr (asc "b"))) = Ok tt /\
+  jws_check_header reg true (h (asc "c-one", PList [PStr (asc "b")])) = Err EValue /\
+  jws_check_header reg true (h (asc "c-one", PList [])) = Err EValue /\
+  jws_check_header reg true (h (asc "c-list", PList [PStr (asc "b")])) = Ok tt /\
+  jws_check_header reg true (h (asc "c-list", PList [])) = Ok tt /\
+  jws_check_header reg true (h (asc "c-list", PStr (asc "b"))) = Err EValue /\
+  jws_check_header reg true (h (asc "c-list", PList [PStr (asc "b"); PStr (asc "c")])) = Err EValue.
+Proof. exact ex_choice_forms. Qed.
+
 (* ---------- 6. failure classes ---------- *)
 (* for EVERY header (whatever the type of crit, alg, ...): with identified
    validators and alg not re-registered by the caller, a failing check raises
